@@ -226,7 +226,7 @@ class C31(Check):
     def cases(self):
         r = self.rng
         out = self._boxes(self.tier != "quick")
-        n = 2200 if self.tier == "quick" else 40000
+        n = 6000 if self.tier == "quick" else 80000
         profiles = ["deque", "sorted", "sorted", "sort", "ring", "mixed", "mixed", "mixed"]
         for i in range(n):
             out.append(self._gen(r.fork(), profiles[i % len(profiles)]))
@@ -290,9 +290,9 @@ class C31(Check):
             o = t[0]
             where = "op %d (%s)" % (idx + 1, " ".join(t)[:60])
             if "BROKEN" in seg or "WILD" in seg:
-                return (o + "-links", "%s: forward and backward walks disagree or do not close: %s" % (where, seg[:160]))
+                return (o + "-links", "%s: forward and backward walks disagree or do not close: %s" % (where, seg[:160]), idx)
             if "LOCKED" in seg:
-                return (o + "-lock", "%s: the list lock is still held after the operation" % where)
+                return (o + "-lock", "%s: the list lock is still held after the operation" % where, idx)
             w = seg.split(" ")
             try:
                 ret = w[0]
@@ -313,7 +313,7 @@ class C31(Check):
 
             def bad(kind, msg):
                 return (o + "-" + kind, "%s: %s; before=%s after=%s" % (
-                    where, msg, old if new is not None else ring, new if new is not None else newr))
+                    where, msg, old if new is not None else ring, new if new is not None else newr), idx)
 
             def sorted_insert(old, xs, new):
                 if sorted(new) != sorted(old + xs):
@@ -439,6 +439,17 @@ class C31(Check):
         except Exception as e:  # malformed observation
             return "oracle could not read the observation (%s): %s" % (e, obs[:80])
         return None if r is None else r[1]
+
+    def shrink(self, case, obs):
+        """cut the case after the operation the oracle rejects (the prefix behaves the same)."""
+        try:
+            r = self._check(case, obs)
+            if r and len(r) > 2 and r[2] is not None:
+                k = r[2] + 1
+                return ";".join(case.split(";")[:k]), " | ".join(obs.split(" | ")[:k])
+        except Exception:
+            pass
+        return case, obs
 
     def signature(self, case, obs):
         try:
